@@ -1,5 +1,6 @@
 """C02 - decoding is lossless: code byte bijection, copy provenance of every
 decoded field, canonical extension ranges."""
+import os
 from harness import *
 from absdom import Aff
 import bitprov
@@ -77,7 +78,8 @@ def ext_value_ok(I, st, base, expr, cls, nib_aff, at):
             ih, il = I.syminfo.get(byco[256]), I.syminfo.get(byco[1])
             if ih and il and ih[0] == "elem" and il[0] == "elem" and ih[1] == base and il[1] == base \
                     and st.entails_eq(ih[2], at) and st.entails_eq(il[2], at + 1) \
-                    and st.range(Aff.sym(byco[256])) == (0, 255) and st.range(Aff.sym(byco[1])) == (0, 255):
+                    and 0 <= st.range(Aff.sym(byco[256]))[0] and st.range(Aff.sym(byco[256]))[1] <= 255 \
+                    and 0 <= st.range(Aff.sym(byco[1]))[0] and st.range(Aff.sym(byco[1]))[1] <= 255:
                 return True, 2
     sg = r.single()
     if sg is None or sg[1] != 1 or sg[2] != 0:
@@ -148,6 +150,7 @@ def check(env, rep, tier):
             for lcls in ("inline", "ext8", "ext16"):
                 I = new_interp(prog)
                 I.no_join_bodies.add(body["id"])
+                I.no_join_prefixes = ("packet::",)
                 inj = ClassInjector(dcls, lcls)
                 I.value_hooks.append(inj)
                 st = State()
@@ -155,8 +158,7 @@ def check(env, rep, tier):
                 recs = []
 
                 def hook(I_, s, call, cbody, recs=recs):
-                    if call.ctx.body["path"] != ENTRY:
-                        return
+                    # (the option walk may sit in a private helper of the decoder: every crate body reached from ENTRY counts)
                     if call.path.endswith("BTreeMap::<K, V, A>::entry") and isinstance(call.args[1], IntV):
                         s.ghost["key"] = call.args[1].aff
                     elif call.path.endswith("LinkedList::<T, A>::push_back"):
@@ -165,9 +167,13 @@ def check(env, rep, tier):
                 I.call_hooks.append(hook)
                 I, res = run(prog, body, args=[buf], st=st, I=I)
                 good = bool(recs) and inj.count > 0
+                if os.environ.get("VERIF_DEBUG_C02"):
+                    print("C02.2", dcls, lcls, "recs", len(recs), "inj", inj.count)
                 for s, val, key, snap, csite in recs:
                     nd, nl = s.ghost.get(("nib", 4)), s.ghost.get(("nib", 0))
                     if nd is None or nl is None or key is None or not isinstance(val, VecV):
+                        if os.environ.get("VERIF_DEBUG_C02"):
+                            print("C02.2", dcls, lcls, "nd", nd, "nl", nl, "key", key, "val", val)
                         good = False
                         continue
                     o = nd[2]                      # offset of the option header byte
@@ -185,6 +191,8 @@ def check(env, rep, tier):
                     tag = val.tag
                     okv = isinstance(tag, tuple) and tag[0] == "copy" and tag[1] == buf.base and s.entails_eq(tag[2], o + 1 + dext + lext) \
                         and s.entails_eq(tag[3], val.len)
+                    if os.environ.get("VERIF_DEBUG_C02"):
+                        print("C02.2", dcls, lcls, "okd", okd, "okl", okl, "okv", okv, "key", key, "heads", heads, "len", val.len, "tag", tag, "o", o)
                     if not (okd and okl and okv):
                         good = False
                 rep.ob("C02.2", "option|%s-delta|%s-length" % (dcls, lcls), good,
@@ -194,6 +202,7 @@ def check(env, rep, tier):
         # ---- token and payload provenance (no injection)
         I = new_interp(prog)
         I.no_join_bodies.add(body["id"])
+        I.no_join_prefixes = ("packet::",)
         st = State()
         buf = I.mat(st, prog.ty(body["locals"][1]["ty"]), "buf")
         scan = {"loops": 0}
@@ -201,17 +210,14 @@ def check(env, rep, tier):
         def lhook(I_, ctx, h, head, backs, exits, scan=scan):
             # the option scan: the loop of the decoder; it is left either with the cursor at the end of the input
             # or at a payload marker
-            if ctx.body["id"] != body["id"] or ctx.depth != 0:
+            if not ctx.body["path"].startswith("packet::"):
                 return
             scan["loops"] += 1
             for tg_, e_ in exits:
-                if I_.err_only(ctx.body, tg_):
-                    continue        # a rejecting exit, not the end of the scan
+                # (whether the exit leads to a rejection is seen at the return: only accepted paths are judged)
                 fin = any(str(x).startswith(("phi", "prev")) and e_.entails(Aff.sym(x) - buf.len) for x in list(e_.bounds))
                 marker = any((I_.syminfo.get(x) or ("",))[0] == "elem" and e_.bounds.get(x) == (255, 255) for x in list(e_.bounds))
                 e_.ghost["option-scan"] = "finished" if fin else "marker" if marker else "left-early"
-                if not fin and not marker:
-                    scan["early"] = scan.get("early", 0) + 1
         I.loop_hooks.append(lhook)
         I, res = run(prog, body, args=[buf], st=st, I=I)
         n_acc, blind = 0, 0
@@ -220,6 +226,8 @@ def check(env, rep, tier):
                 n_acc += 1
                 if s.ghost.get("option-scan") is None:
                     blind += 1
+                elif s.ghost.get("option-scan") == "left-early":
+                    scan["early"] = scan.get("early", 0) + 1
         rep.ob("C02.4", "option-scan-ends-at-end-or-marker", scan.get("early", 0) == 0 and scan["loops"] >= 1,
                "the option scan can be left on %d path(s) with input remaining that is not a payload marker: trailing bytes are neither "
                "parsed as an option nor rejected (they are swallowed like a marker or dropped)" % scan.get("early", 0), site)
